@@ -335,6 +335,48 @@ def chkpt_attribute_to_device(
     return chkpt_dict
 
 
+def get_detached_tensors(module: Module) -> Dict[str, torch.Tensor]:
+    """Returns the tensors of a module that ``state_dict()`` does not list because they were
+    installed in place of its parameters through ``TensorDict.to_module()``, e.g. the detached
+    target network of DQN or the copy of the shared encoder held by a critic.
+
+    :param module: The module to inspect.
+    :type module: torch.nn.Module
+    :return: Copies of the detached tensors, keyed like the entries of a state dict.
+    :rtype: Dict[str, torch.Tensor]
+    """
+    module = module._orig_mod if isinstance(module, OptimizedModule) else module
+    detached = {}
+    for prefix, submodule in module.named_modules():
+        for name, value in vars(submodule).items():
+            if isinstance(value, torch.Tensor) and not name.startswith("_"):
+                key = f"{prefix}.{name}" if prefix else name
+                detached[key] = value.detach().clone()
+    return detached
+
+
+def load_detached_tensors(
+    module: Module, detached: Optional[Dict[str, torch.Tensor]]
+) -> None:
+    """Copies the tensors saved by ``get_detached_tensors()`` back into a module.
+
+    :param module: The module to load the tensors into.
+    :type module: torch.nn.Module
+    :param detached: The saved tensors (None for checkpoints that do not contain them).
+    :type detached: Optional[Dict[str, torch.Tensor]]
+    """
+    if not detached:
+        return
+
+    module = module._orig_mod if isinstance(module, OptimizedModule) else module
+    for key, value in detached.items():
+        prefix, _, name = key.rpartition(".")
+        current = getattr(module.get_submodule(prefix), name, None)
+        if isinstance(current, torch.Tensor) and current.shape == value.shape:
+            with torch.no_grad():
+                current.copy_(value)
+
+
 def key_in_nested_dict(nested_dict: Dict[str, Any], target: str) -> bool:
     """Helper function to determine if key is in nested dictionary
 
